@@ -9,6 +9,26 @@ BUILT = {
             "Every sequence of block-building, commit and reorg operations over two collision-forcing alphabets (window arithmetic; one key per table) up to the stated depth and deviation bounds is executed on the real engine through its JSON-RPC dispatch table; after every accepted reorg, and after every extension of it, all answers of all read methods over a universe that includes the orphaned keys must equal those of a second real instance fed only the surviving calls; acceptance / refusal of every reorg is checked against the statement (current height, highest block ever finalised, open block), refusals must leave the logical content unchanged.",
             "Bounded: histories longer than the depth bound, more than two storage slots, and contract code other than the hand-assembled probe contract S are not covered. revm and RocksDB are trusted. The wipe-instead-of-reopen shortcut is validated on every run against freshly opened instances.",
             "DESIGN.md §4 C01"),
+    "C02": ("hist", "model_checking",
+            "explicit-state exploration of the real engine on twin instances (different hash-map seeds); raw byte comparison of every result",
+            "Every history over an alphabet of multi-transaction, multi-sender, pool-draining blocks, commit and reorg within the depth bound is executed on two real instances (different directories, different in-memory hash-map seeds; one of them never commits); every call result and the raw response text of every read method over the universe (only the block processing time masked, txpool answers compared as JSON objects) must be identical, and every observation is issued twice on the same instance.",
+            "Bounded histories; both instances live in one process of one build: cross-build agreement is reduced to pinned digests (golden file) once recorded. Arrays are never reordered before comparison.",
+            "DESIGN.md §4 C02"),
+    "C03": ("hist", "model_checking",
+            "explicit-state exploration of the real engine: commit / clearCaches / real stop+reopen deviations, normal-form differential oracle",
+            "Every history over block-building operations with commits, clearCaches (at boundaries and between two transactions of a block) and real close/reopen of the database at any position within the depth and deviation bounds; the observable state and the result of every surviving call must equal those of a never-committed instance fed the normal form (commit = identity, clear / restart = truncate to the last commit).",
+            "Bounded histories; restart is a clean drop of all handles (crashes are C04's subject).",
+            "DESIGN.md §4 C03"),
+    "C05": ("hist", "model_checking",
+            "explicit-state exploration of the real engine with injected out-of-protocol calls; protocol automaton predicts must-reject, logical-state equality on every error",
+            "Into every history of single transactions / finalise steps within the depth bound, each call of the statement's menu (wrong tx_idx incl. 2^64-1, other timestamp / hash, existing hash, wrong finalise count, commit / reorg / mine while a block is open, both / neither encoding, mismatching or parentless initialise, undecodable pkscript / raw transaction) is injected at every position including mid-block; calls the statement lists must return an error; every call that returns an error must leave the logical content of all tables, the open block and the pool unchanged; the history with rejected calls removed must observe identically.",
+            "Bounded histories and a finite menu of malformed parameters. One known finding (parked transaction ignores tx_idx, pinned by the repository's own test) is reported as KNOWN-FINDING.",
+            "DESIGN.md §4 C05"),
+    "C10": ("hist", "model_checking",
+            "explicit-state exploration of the real engine with read requests interleaved; logical-state equality around each read, database rows compared after commit",
+            "Every history of single transactions / finalise steps within the depth bound with read requests inserted at every position (executing ones — eth_call, eth_callMany with state carry-over and failing middle calls, eth_estimateGas(Many), brc20_balance — at block boundaries; non-executing queries also mid-block): the logical state before and after each read is equal, the final observation equals that of the read-free history, and after committing both instances their complete database rows are identical.",
+            "Bounded histories; simulated code is the probe contract S (storage writes, creation, self-destruct, revert, invalid opcode).",
+            "DESIGN.md §4 C10"),
 }
 
 NOT_BUILT_REASON = "check not built yet in this round (planned in DESIGN.md §4); nothing is claimed for it"
